@@ -49,7 +49,7 @@ Remove(s, i) == SubSeq(s, 1, i) \o SubSeq(s, i + 2, Len(s))       \* drop 0-base
 Replace(s, i, x) == [s EXCEPT ![i + 1] = x]
 
 \* ------------------------------------------------------------ semantics clauses
-Same(obs, T) == ObsOK(obs) /\ SameExactly(ObsTable(obs), T)
+Same(obs, T) == ObsOK(obs) /\ Len(obs) = Len(T) /\ \A b \in 1..Len(T) : obs[b].idx = T[b].idx /\ obs[b].ph = T[b].ph
 Ops == C.ops
 R == C.r
 
@@ -61,43 +61,50 @@ SemVerdict(T) ==
   IF ~Same(C.own, T) THEN "own-product"
   ELSE IF ~Same(C.u, T) THEN "get_unitary"
   \* the ops in the order they were appended (before any fold) denote the same operator as in iteration order
-  ELSE IF C.chk_alt /\ ~SameExactly(SemTable(C.alt, R), T) THEN "get_unitary:iteration-is-not-a-program-order"
+  ELSE IF C.chk_alt /\ (LET TA == TLCEval(SemTable(C.alt, R)) IN ~SameExactly(TA, T)) THEN "get_unitary:iteration-is-not-a-program-order"
   ELSE IF ~StateOK(T) THEN "get_statevector"
   ELSE IF C.has_ug /\ ~Same(C.ug, T) THEN "unitary_and_grad-value"
   ELSE "ok"
 
 \* ------------------------------------------------------------ parameter clauses
+\* (every table is bound once with LET and materialised: TLC re-evaluates operator arguments that are given inline)
 ParamVerdict ==
   LET N == NumParams(Ops)
       v == C.v2
+      flat == Flat(Ops)
       ops2 == RebindSeq(Ops, v)
-      T2 == SemTable(ops2, R)
+      T2 == TLCEval(SemTable(ops2, R))
+      ops3 == RebindSeq(Ops, C.v3)
+      T3 == TLCEval(SemTable(ops3, R))
+      lo == TLCEval([k \in 1..Len(Ops) |-> SliceLo(Ops, k)])
+      hi == TLCEval([k \in 1..Len(Ops) |-> SliceHi(Ops, k)])
+      Owner(i) == CHOOSE k \in 1..Len(Ops) : lo[k] <= i /\ i < hi[k]
   IN
   IF C.nparams # N THEN "param-vector:num_params"
-  ELSE IF C.params0 # Flat(Ops) THEN "param-vector:params"
-  ELSE IF \E i \in 1..Len(C.locs) : LET l == C.locs[i]  k == ParamOwner(Ops, i - 1) IN
-            l.c # C.it[k].c \/ l.q \notin ToSet(C.it[k].loc) \/ l.k # (i - 1) - SliceLo(Ops, k)
+  ELSE IF C.params0 # flat THEN "param-vector:params"
+  ELSE IF \E i \in 1..Len(C.locs) : LET l == C.locs[i]  k == Owner(i - 1) IN
+            l.c # C.it[k].c \/ l.q \notin ToSet(C.it[k].loc) \/ l.k # (i - 1) - lo[k]
        THEN "param-vector:get_param_location"
   ELSE IF N = 0 THEN "ok"
   ELSE IF ~Same(C.u_exp, T2) THEN "explicit-params"
   ELSE IF C.has_ug /\ ~Same(C.ug_exp, T2) THEN "explicit-params:get_unitary_and_grad"
   ELSE IF ~(\A i \in 1..Len(C.sv_exp) : LET s == C.sv_exp[i] IN s.within /\ s.idx = T2[s.b + 1].idx /\ s.ph = NormPh(T2[s.b + 1].ph + s.g))
        THEN "explicit-params:get_statevector"
-  ELSE IF C.params_untouched # Flat(Ops) THEN "explicit-params:stored-parameters-changed"
+  ELSE IF C.params_untouched # flat THEN "explicit-params:stored-parameters-changed"
   \* after set_params(v)
   ELSE IF C.params_set # v THEN "param-vector:set_params"
-  ELSE IF \E k \in 1..Len(Ops) : C.opp_set[k] # SubSeq(v, SliceLo(Ops, k) + 1, SliceHi(Ops, k)) THEN "param-vector:set_params"
+  ELSE IF \E k \in 1..Len(Ops) : C.opp_set[k] # SubSeq(v, lo[k] + 1, hi[k]) THEN "param-vector:set_params"
   ELSE IF ~Same(C.u_set, T2) THEN "param-vector:set_params"
   ELSE IF C.getp # v THEN "param-vector:get_param"
   \* single set_param(i, x) calls, applied one after another
   ELSE IF ~(LET RECURSIVE Chk(_, _)
-                Chk(j, cur) == IF j > Len(C.setp) THEN TRUE
+                Chk(j, cur) == IF j > Len(C.setp) THEN cur = C.v3
                                ELSE LET nx == Replace(cur, C.setp[j].i, C.setp[j].x) IN C.setp[j].after = nx /\ Chk(j + 1, nx)
             IN Chk(1, v)) THEN "param-vector:set_param"
-  ELSE IF ~Same(C.u_setp, SemTable(RebindSeq(Ops, C.v3), R)) THEN "param-vector:set_param"
+  ELSE IF ~Same(C.u_setp, T3) THEN "param-vector:set_param"
   \* freeze_param(i) on a copy holding v3
   ELSE IF C.frz.i >= 0 /\ (C.frz.nparams # N - 1 \/ C.frz.params # Remove(C.v3, C.frz.i)) THEN "param-vector:freeze_param"
-  ELSE IF C.frz.i >= 0 /\ ~Same(C.frz.u, SemTable(RebindSeq(Ops, C.v3), R)) THEN "param-vector:freeze_param"
+  ELSE IF C.frz.i >= 0 /\ ~Same(C.frz.u, T3) THEN "param-vector:freeze_param"
   ELSE IF C.frz.i >= 0 /\ C.frz.it # C.it THEN "param-vector:freeze_param"
   ELSE "ok"
 
@@ -120,7 +127,7 @@ IterVerdict ==
   ELSE "ok"
 
 Verdict ==
-  LET T == SemTable(Ops, R)
+  LET T == TLCEval(SemTable(Ops, R))
       a == SemVerdict(T)
   IN IF a # "ok" THEN a
      ELSE LET b == ParamVerdict IN IF b # "ok" THEN b ELSE IterVerdict
